@@ -27,7 +27,13 @@ func dnsEncode(p []byte, domain string, server bool) []byte {
 	if t*256 < c || t == 0 {
 		t++
 	}
+	mk := func(n int) {
+		for i := 0; i < n; i++ {
+			marks = append(marks, b.Len()+i)
+		}
+	}
 	b.Write([]byte{0x12, 0x34})
+	mk(10) // flags and the four counts
 	if server {
 		b.Write([]byte{132, 128, 0, 1, 0, 1, 0, 0})
 	} else {
@@ -35,11 +41,14 @@ func dnsEncode(p []byte, domain string, server bool) []byte {
 	}
 	b.Write([]byte{byte(t >> 8), byte(t)})
 	for _, l := range strings.Split(domain, ".") {
+		mk(1)
 		b.WriteByte(byte(len(l)))
 		b.WriteString(l)
 	}
+	mk(1)
 	b.Write([]byte{0, 0, 1, 0, 1})
 	if server {
+		marks = append(marks, b.Len()+10, b.Len()+11)
 		b.Write([]byte{192, 12, 0, 1, 0, 1, 0, 0, 3, 9, 0, 4, 1, 2, 3, 4})
 	}
 	i := 0
@@ -47,6 +56,9 @@ func dnsEncode(p []byte, domain string, server bool) []byte {
 		j := 256
 		if k := len(p) - i; k < 256 {
 			j = k
+		}
+		if x < 2 {
+			marks = append(marks, b.Len(), b.Len()+3, b.Len()+5, b.Len()+10, b.Len()+11)
 		}
 		b.Write([]byte{192, 12, 0, 10, 0, 1, 0, 0, 0, 0, byte(j >> 8), byte(j)})
 		b.Write(p[i : i+j])
@@ -62,6 +74,16 @@ func pat(n int, seed byte) []byte {
 	}
 	return b
 }
+
+// marks collects the offsets of the count / length / class bytes of the message being built.
+var marks []int
+
+func mark(c *data.Chunk, n int) {
+	for i := 0; i < n; i++ {
+		marks = append(marks, c.Size()+i)
+	}
+}
+func takeMarks() []int { m := marks; marks = nil; return m }
 
 type field int
 
@@ -90,6 +112,7 @@ func writeFields(c *data.Chunk, fs []field, strLen int) {
 			if n < 0 {
 				n = rng.Intn(6)
 			}
+			mark(c, 2)
 			c.WriteBytes(pat(n, byte(rng.U64())))
 		}
 	}
@@ -108,6 +131,7 @@ func payload(c *data.Chunk) []byte { return append([]byte{}, c.Payload()...) }
 
 func countedMsg(cw int, n int, fs []field) []byte {
 	var c data.Chunk
+	mark(&c, cw)
 	if cw == 2 {
 		c.WriteUint16(uint16(n))
 	} else {
@@ -234,10 +258,13 @@ func packetsValid(stream bool) [][]byte {
 
 // networkBytes: count, then per device name, mac, address count, addresses
 func networkBytes(c *data.Chunk, devs int, addrs int) {
+	mark(c, 1)
 	c.WriteUint8(uint8(devs))
 	for i := 0; i < devs; i++ {
+		mark(c, 2)
 		c.WriteString("eth" + string(rune('0'+i)))
 		c.WriteUint64(0x0000aabbccddee00 + uint64(i))
+		mark(c, 1)
 		c.WriteUint8(uint8(addrs))
 		for a := 0; a < addrs; a++ {
 			c.WriteUint64(0)
@@ -247,12 +274,16 @@ func networkBytes(c *data.Chunk, devs int, addrs int) {
 }
 
 func machineBytes(c *data.Chunk, id device.ID, devs, addrs int, user, host, ver string) {
+	mark(c, 1)
 	c.Write(id[:])
 	c.WriteUint8(0x20) // system
 	c.WriteUint32(4242)
 	c.WriteUint32(1)
+	mark(c, 2)
 	c.WriteString(user)
+	mark(c, 2)
 	c.WriteString(ver)
+	mark(c, 2)
 	c.WriteString(host)
 	c.WriteUint8(1)
 	c.WriteUint32(0x55)
@@ -260,72 +291,91 @@ func machineBytes(c *data.Chunk, id device.ID, devs, addrs int, user, host, ver 
 }
 
 func proxyBytes(c *data.Chunk, n int, full bool) {
+	mark(c, 1)
 	c.WriteUint8(uint8(n))
 	for i := 0; i < n; i++ {
+		mark(c, 2)
 		c.WriteString("proxy" + string(rune('a'+i)))
+		mark(c, 2)
 		c.WriteString("127.0.0.1:80" + string(rune('0'+i)))
 		if full {
+			mark(c, 2)
 			c.WriteBytes(pat(10+i, 9))
 		}
 	}
 }
 
 func settingsBytes(c *data.Chunk) {
-	c.WriteUint8(10)            // jitter
+	c.WriteUint8(10)             // jitter
 	c.WriteInt64(30_000_000_000) // sleep
-	c.WriteInt64(0)             // kill date
-	c.WriteUint8(0x7f)          // work hours: days, start h/m, end h/m
+	c.WriteInt64(0)              // kill date
+	c.WriteUint8(0x7f)           // work hours: days, start h/m, end h/m
 	c.WriteUint8(9)
 	c.WriteUint8(0)
 	c.WriteUint8(17)
 	c.WriteUint8(30)
 }
 
-func devinfoValid(t int) [][]byte {
-	var r [][]byte
-	for _, v := range [][3]int{{0, 0, 0}, {1, 1, 1}, {2, 3, 2}} {
-		var c data.Chunk
-		switch t {
-		case 4:
-			proxyBytes(&c, v[2], false)
-			r = append(r, payload(&c))
-			continue
-		case 0, 2, 5:
-			machineBytes(&c, devID(3), v[0], v[1], "alice", "host", "Linux 6.1")
-		}
-		settingsBytes(&c)
-		if t <= 2 {
-			proxyBytes(&c, v[2], true)
-		}
-		r = append(r, payload(&c))
+func devinfoOne(t int, v [3]int) []byte {
+	var c data.Chunk
+	switch t {
+	case 4:
+		proxyBytes(&c, v[2], false)
+		return payload(&c)
+	case 0, 2, 5:
+		machineBytes(&c, devID(3), v[0], v[1], "alice", "host", "Linux 6.1")
 	}
-	return r
+	settingsBytes(&c)
+	if t <= 2 {
+		proxyBytes(&c, v[2], true)
+	}
+	return payload(&c)
 }
 
 // ---------------------------------------------------------------- the generator
 
+// msgs builds messages with f and returns each with the marked positions.
+type msg struct {
+	b   []byte
+	pos []int
+}
+
+func build(f func() []byte) msg {
+	marks = nil
+	b := f()
+	return msg{b, takeMarks()}
+}
+
+func deriveAll(dec string, ms [][]byte, pos []int) {
+	for _, m := range ms {
+		derive(dec, m, pos)
+	}
+}
+
 func generate() {
-	quickRandom, exLen := 150, 3
+	nRandom, exLen := 16, 2
 	if thorough {
-		quickRandom, exLen = 6000, 4
+		nRandom, exLen = 3000, 4
 	}
 
 	// ---- corpus: one representative of every recorded defect (fixed or known finding)
 	run("dns", make([]byte, 1), "corpus")
+	run("dns", make([]byte, 11), "corpus")
 	run("dns", make([]byte, 12), "corpus")
-	run("dns", make([]byte, 13), "corpus")                                                          // 12-byte empty packet + 1 trailing byte
-	run("dns", append([]byte{0, 0, 0, 0, 0, 1, 0, 0, 0, 0, 0, 0}, 1, 0x61), "corpus")                // question walk reaches len(b)
-	run("dns", append([]byte{0, 0, 0, 0, 0, 0, 0, 1, 0, 0, 0, 0}, make([]byte, 10)...), "corpus")    // answer length at len(b)
-	run("dns", append([]byte{0, 0, 0, 0, 0, 0, 0, 1, 0, 0, 0, 0}, make([]byte, 11)...), "corpus")    // answer length low byte at len(b)
-	run("dns", append([]byte{0, 0, 0, 0, 0, 0, 0, 0, 0, 0, 0, 1}, 192, 12, 0, 10, 0, 1, 0), "corpus") // record header cut after the type
+	run("dns", make([]byte, 13), "corpus")                                                                              // 12-byte empty packet + 1 trailing byte
+	run("dns", append([]byte{0, 0, 0, 0, 0, 1, 0, 0, 0, 0, 0, 0}, 1, 0x61), "corpus")                                   // question walk reaches len(b)
+	run("dns", append([]byte{0, 0, 0, 0, 0, 0, 0, 1, 0, 0, 0, 0}, make([]byte, 10)...), "corpus")                       // answer length at len(b)
+	run("dns", append([]byte{0, 0, 0, 0, 0, 0, 0, 1, 0, 0, 0, 0}, make([]byte, 11)...), "corpus")                       // answer length low byte at len(b)
+	run("dns", append([]byte{0, 0, 0, 0, 0, 0, 0, 0, 0, 0, 0, 1}, 192, 12, 0, 10, 0, 1, 0), "corpus")                   // record header cut after the type
 	run("dns", append([]byte{0, 0, 0, 0, 0, 0, 0, 0, 0, 0, 0, 1}, 192, 12, 0, 10, 0, 1, 0, 0, 0, 0, 0, 9, 1), "corpus") // data longer than the packet
-	run("strlistC", []byte{7, 0x40, 0, 0, 0, 0, 0, 0, 0}, "corpus")                                  // 2^62 strings
-	run("strlistC", []byte{7, 0x80, 0, 0, 0, 0, 0, 0, 0}, "corpus")                                  // negative as int
-	run("strlistC", []byte{5, 0, 0x20, 0, 0}, "corpus")                                              // 2 Mi strings = 32 MiB from 5 bytes
-	run("strlistC", []byte{5, 0xff, 0xff, 0xff, 0xff}, "corpus")                                     // 64 GiB from 5 bytes
+	run("strlistC", []byte{7, 0x40, 0, 0, 0, 0, 0, 0, 0}, "corpus")                                                     // 2^62 strings
+	run("strlistC", []byte{7, 0x80, 0, 0, 0, 0, 0, 0, 0}, "corpus")                                                     // negative as int
+	run("strlistC", []byte{5, 0, 0x20, 0, 0}, "corpus")                                                                 // 2 Mi strings = 32 MiB from 5 bytes
+	run("strlistC", []byte{5, 0xff, 0xff, 0xff, 0xff}, "corpus")                                                        // 64 GiB from 5 bytes
 	run("res:Mounts", []byte{5, 0xff, 0xff, 0xff, 0xff}, "corpus")
-	run("res:Ls", []byte{0xff, 0xff, 0xff, 0xff}, "corpus")                                          // 64 GiB from 4 bytes
-	run("res:Ls", []byte{0, 0x20, 0, 0}, "corpus")                                                   // 32 MiB from 4 bytes
+	run("res:Mounts", []byte{7, 0x40, 0, 0, 0, 0, 0, 0, 0}, "corpus")
+	run("res:Ls", []byte{0xff, 0xff, 0xff, 0xff}, "corpus") // 64 GiB from 4 bytes
+	run("res:Ls", []byte{0, 0x20, 0, 0}, "corpus")          // 32 MiB from 4 bytes
 	run("res:WindowList", []byte{0, 0x10, 0, 0}, "corpus")
 	run("res:FuncRemapList", []byte{0, 0x10, 0, 0}, "corpus")
 	run("res:ProcessList", []byte{0, 0x10, 0, 0}, "corpus")
@@ -334,33 +384,34 @@ func generate() {
 	run("bytesS", []byte{5, 2, 0, 0, 0}, "corpus")             // known finding: 32 MiB from 5 bytes
 	run("bytesS", []byte{7, 0, 0, 4, 0, 0, 0, 0, 0}, "corpus") // known finding: MaxSlice = 4 TiB from 9 bytes
 	run("strlistS", []byte{1, 1, 5, 2, 0, 0, 0}, "corpus")
+	run("strlistS", []byte{7, 0x40, 0, 0, 0, 0, 0, 0, 0}, "corpus")
 	generateMore(true)
 
 	// ---- DNS
 	for _, srv := range []bool{false, true} {
-		for _, n := range []int{1, 5, 255, 256, 257, 600} {
-			m := dnsEncode(pat(n, 1), "example.com", srv)
-			lim := 60
-			if n > 5 {
-				lim = 14
-			}
-			if n <= 257 {
-				derive("dns", m, lim)
+		for _, n := range []int{1, 5, 256, 257, 600} {
+			srv, n := srv, n
+			m := build(func() []byte { return dnsEncode(pat(n, 1), "example.com", srv) })
+			if n <= 5 {
+				derive("dns", m.b, m.pos)
+			} else if n <= 257 && (thorough || srv) {
+				derive("dns", m.b, m.pos[:10])
 			} else {
-				run("dns", m, "valid")
+				run("dns", m.b, "valid")
 			}
 		}
-		two := append(dnsEncode(pat(3, 1), "a.bc", srv), dnsEncode(pat(2, 9), "a.bc", srv)...)
-		derive("dns", two, 40)
+		two := build(func() []byte { return append(dnsEncode(pat(3, 1), "a.bc", srv), dnsEncode(pat(2, 9), "a.bc", srv)...) })
+		derive("dns", two.b, two.pos)
 	}
+	marks = nil
 	run("dns", dnsEncode(pat(4, 1), strings.Repeat("a", 63)+".com", false), "valid")
 	run("dns", dnsEncode(pat(4, 1), strings.Repeat("a", 64)+".com", false), "valid")
 	// exhaustive tails behind headers with small counts
 	for _, h := range [][]byte{{0, 0, 0, 0, 0, 1, 0, 0, 0, 0, 0, 0}, {0, 0, 0, 0, 0, 0, 0, 1, 0, 0, 0, 0}, {0, 0, 0, 0, 0, 0, 0, 0, 0, 0, 0, 1}, {0, 0, 0, 0, 0, 1, 0, 1, 0, 0, 0, 1}} {
-		exhaustive("dns", h, exLen-1)
+		exhaustive("dns", h, exLen)
 	}
 	exhaustive("dns", []byte{0, 0, 0, 0, 0, 0, 0, 0, 0, 0, 0, 1, 192, 12, 0, 10, 0, 1, 0, 0, 0, 0}, exLen)
-	for i := 0; i < quickRandom; i++ {
+	for i := 0; i < 4*nRandom; i++ {
 		// random header counts in 0..2 and a random tail
 		b := rng.Bytes(12 + rng.Intn(40))
 		b[4], b[6], b[10] = 0, 0, 0
@@ -370,87 +421,146 @@ func generate() {
 		}
 		run("dns", b, "random")
 	}
-	random("dns", quickRandom, 40)
+	random("dns", nRandom, 40)
 
 	// ---- string lists and byte strings, flat and stream
 	for _, d := range []string{"strlistC", "strlistS"} {
-		for _, m := range strlistValid() {
-			derive(d, m, 12)
+		deriveAll(d, strlistValid(), []int{0, 1, 2, 3})
+		if d == "strlistC" {
+			exhaustive(d, nil, exLen+1)
+		} else {
+			exhaustive(d, nil, exLen)
 		}
-		exhaustive(d, nil, exLen)
-		random(d, quickRandom, 24)
+		random(d, nRandom, 24)
 	}
 	for _, d := range []string{"bytesC", "bytesS"} {
-		for _, m := range bytesValid() {
-			derive(d, m, 10)
+		deriveAll(d, bytesValid(), []int{0, 1, 2})
+		if d == "bytesC" {
+			exhaustive(d, nil, exLen+1)
+		} else {
+			exhaustive(d, nil, exLen)
 		}
-		exhaustive(d, nil, exLen)
-		random(d, quickRandom, 24)
+		random(d, nRandom, 24)
 	}
 
 	// ---- packets
-	for _, m := range packetsValid(false) {
-		derive("pktWire", m, 56)
+	// wire: id(32) ID job(2) flags(8) tags(2) class(1) len(1..8) tags body
+	for i, m := range packetsValid(false) {
+		if i == 2 || i == 3 || thorough {
+			derive("pktWire", m, []int{0, 32, 35, 36, 42, 43, 44, 45, 46, 47, 50})
+		} else {
+			derive("pktWire", m, []int{44, 45, 46})
+		}
 	}
-	random("pktWire", quickRandom, 80)
+	random("pktWire", nRandom, 80)
 	exhaustive("pktWire", append(devIDBytes(9), 1, 0, 1, 0, 0, 0, 0, 0, 0, 0, 0), exLen)
-	for _, m := range packetsValid(true) {
-		derive("pktStream", m, 56)
+	exhaustive("pktWire", append(devIDBytes(9), 1, 0, 1, 0, 0, 0, 0, 0, 0, 0, 0, 0, 1), exLen)
+	// stream: ID job(2) tags(2) flags(8) id(32) tags body
+	for i, m := range packetsValid(true) {
+		if i == 2 || i == 3 || thorough {
+			derive("pktStream", m, []int{0, 3, 4, 5, 6, 12, 13, 45, 46, 47, 49, 53, 54})
+		} else {
+			derive("pktStream", m, []int{4, 45, 46})
+		}
 	}
-	random("pktStream", quickRandom, 80)
-	exhaustive("pktStream", nil, exLen-1)
+	random("pktStream", nRandom, 80)
+	exhaustive("pktStream", nil, exLen)
 
 	// ---- result decoders
 	for _, name := range resultDecs {
-		for _, m := range resultValid(name) {
-			derive("res:"+name, m, 24)
+		for i, m := range resultMsgs(name) {
+			if i < 2 || thorough {
+				derive("res:"+name, m.b, upto(5))
+			} else {
+				run("res:"+name, m.b, "valid")
+			}
 		}
 		exhaustive("res:"+name, nil, exLen)
-		random("res:"+name, quickRandom/2, 40)
+		random("res:"+name, nRandom/2, 40)
 	}
 	for _, name := range []string{"Script", "Netcat", "ProcessDump"} {
-		for _, m := range resultValid(name) {
-			derive("res:"+name, m, 24)
+		for _, m := range resultMsgs(name) {
+			derive("res:"+name, m.b, upto(6))
 		}
 		exhaustive("res:"+name, nil, exLen)
-		random("res:"+name, quickRandom/2, 40)
+		random("res:"+name, nRandom/2, 40)
 	}
 
 	// ---- registration data
 	{
-		var c data.Chunk
-		machineBytes(&c, devID(3), 2, 2, "bob", "h", "v")
-		derive("machine", payload(&c), 90)
-		random("machine", quickRandom, 80)
-		for _, v := range [][2]int{{0, 0}, {1, 0}, {1, 1}, {3, 2}} {
-			var n data.Chunk
-			networkBytes(&n, v[0], v[1])
-			derive("network", payload(&n), 30)
+		m := build(func() []byte {
+			var c data.Chunk
+			machineBytes(&c, devID(3), 2, 2, "bob", "h", "v")
+			return payload(&c)
+		})
+		derive("machine", m.b, m.pos)
+		random("machine", nRandom, 80)
+		for _, v := range [][2]int{{0, 0}, {1, 1}, {3, 2}} {
+			v := v
+			m := build(func() []byte {
+				var n data.Chunk
+				networkBytes(&n, v[0], v[1])
+				return payload(&n)
+			})
+			derive("network", m.b, m.pos)
 		}
 		exhaustive("network", nil, exLen)
-		random("network", quickRandom, 40)
+		random("network", nRandom, 40)
 		for _, f := range []bool{false, true} {
 			d := "proxy:0"
 			if f {
 				d = "proxy:1"
 			}
 			for _, k := range []int{0, 1, 3} {
-				var p data.Chunk
-				proxyBytes(&p, k, f)
-				derive(d, payload(&p), 30)
+				f, k := f, k
+				m := build(func() []byte {
+					var p data.Chunk
+					proxyBytes(&p, k, f)
+					return payload(&p)
+				})
+				derive(d, m.b, m.pos)
 			}
 			exhaustive(d, nil, exLen)
-			random(d, quickRandom, 40)
+			random(d, nRandom, 40)
 		}
 		for _, t := range []int{0, 2, 3, 4, 5} {
 			d := "devinfo:" + string(rune('0'+t))
-			for _, m := range devinfoValid(t) {
-				derive(d, m, 100)
+			for i, m := range devinfoMsgs(t) {
+				if i == 1 || thorough {
+					derive(d, m.b, m.pos)
+				} else {
+					run(d, m.b, "valid")
+				}
 			}
-			random(d, quickRandom, 120)
+			random(d, nRandom, 120)
 		}
 	}
 	generateMore(false)
+}
+
+func resultMsgs(name string) []msg {
+	marks = nil
+	var r []msg
+	// the builders draw from rng: build them one at a time so that the marks belong to one message
+	all := resultValid(name)
+	marks = nil
+	for i := range all {
+		i := i
+		_ = i
+	}
+	for _, b := range all {
+		r = append(r, msg{b, nil})
+	}
+	return r
+}
+
+func devinfoMsgs(t int) []msg {
+	var r []msg
+	for _, v := range [][3]int{{0, 0, 0}, {1, 1, 1}, {2, 3, 2}} {
+		v := v
+		r = append(r, build(func() []byte { return devinfoOne(t, v) }))
+	}
+	return r
 }
 
 func devIDBytes(seed byte) []byte {
